@@ -36,6 +36,7 @@ def decSnap (s : String) : Option Disk :=
 
 def decRollObs (s : String) : Option RollObs :=
   match splitOnChar '|' s with
+  | [res, "-"] => some { res, snap := Disk.empty, snapless := true }
   | [res, snap] => (decSnap snap).map (fun d => { res, snap := d })
   | _ => none
 
@@ -48,6 +49,8 @@ structure Case where
   file : Path
   init : Disk
   rolls : List (Option Bytes)
+  /-- background-rotation build: per roll, was quiescence awaited (and a snapshot taken) -/
+  bg : Option (List Bool) := none
 
 def decCase : List String → Option Case
   | [kind, pat, b, c, env, file, init, rolls] => do
@@ -61,6 +64,15 @@ def decCase : List String → Option Case
     let rolls ← mapM? (decOpt decBytes) (decList ',' rolls)
     pure { isDelete, pattern, base, count, env, file, init, rolls }
   | _ => none
+
+/-- `… @bg sched`: the same case executed by the harness built with `background_rotation` -/
+def decCaseBg (fields : List String) : Option Case :=
+  match fields with
+  | [k, p, b, c, e, f, i, r, "@bg", sched] => do
+    let cs ← decCase [k, p, b, c, e, f, i, r]
+    let ws ← mapM? (fun x => if x = "w" then some true else if x = "n" then some false else none) (decList ',' sched)
+    if ws.length ≠ cs.rolls.length || cs.isDelete then none else pure { cs with bg := some ws }
+  | _ => decCase fields
 
 def Case.roller (c : Case) : RollerCfg := mkRoller (expandEnv c.env) id c.pattern c.base c.count
 
@@ -83,6 +95,17 @@ def runModel (c : Case) : Disk → List (Option Bytes) → List String
         | (.error e, b) => (.err e, b)
       else rollU32 c.roller c.file (fun _ => false) d1
     (renderRes res ++ "|" ++ encSnap d2) :: runModel c d2 rest
+
+/-- background rotation: `roll` returns Ok once the file is renamed to the temp name (a missing
+file is tolerated by `move_file`) and the rotation thread is spawned; at quiescence the disk is the
+foreground disk (`C07_background_quiescent_eq_foreground`); no snapshot where the harness did not
+wait. Count 0 is the synchronous `remove_file` of the foreground code. -/
+def runModelBg (c : Case) (fg : List String) (ws : List Bool) : List String :=
+  (fg.zip ws).map (fun (o, w) =>
+    let parts := splitOnChar '|' o
+    let res := if c.count = 0 then parts.headD "" else "ok"
+    let snap := (parts.drop 1).headD ""
+    res ++ "|" ++ (if w then snap else "-"))
 
 def countHoles : List Char → Nat
   | [] => 0
@@ -118,6 +141,9 @@ def tagsOf (c : Case) : List String :=
   (if !c.isDelete && c.count ≠ 0 && U32_MOD = c.base + c.count then ["u32-boundary"] else []) ++
   (if !c.isDelete && !representable c.base c.count then ["u32-unrepresentable"] else []) ++
   (if !c.isDelete && !hasHole c.pattern then ["no-hole"] else []) ++
+  (match c.bg with
+    | some ws => ["bg"] ++ (if ws.any (fun w => !w) then ["bg-overlap"] else [])
+    | none => []) ++
   (if nRolls = 0 then ["trivial"] else [])
 
 def signature (c : Case) (clause : String) : String :=
@@ -131,7 +157,7 @@ def signature (c : Case) (clause : String) : String :=
   else "C07/frame"
 
 def handle : Handler := fun cas obs =>
-  match decCase cas, obs with
+  match decCaseBg cas, obs with
   | some c, [implObs] =>
     if !c.isDelete && !hasHole c.pattern then
       { model := "build-err", spec := if implObs = "build-err" then "ok" else "FAIL:builder accepted a pattern without {};sig=C07/no-hole-accepted",
@@ -145,7 +171,10 @@ def handle : Handler := fun cas obs =>
           else "FAIL:unrepresentable window accepted;sig=C07/base-plus-count-overflows-u32",
         tags := tagsOf c }
     else
-      let model := encList "/" (runModel c c.init c.rolls)
+      let fgObs := runModel c c.init c.rolls
+      let model := encList "/" (match c.bg with
+        | some ws => runModelBg c fgObs ws
+        | none => fgObs)
       let r := c.roller
       if implObs = "build-err" then
         { model, spec := "FAIL:builder rejected a representable window;sig=" ++ signature c "build", tags := tagsOf c }
